@@ -164,3 +164,12 @@ M("c06-level0-quadrant-swap", "C06", ("toast.py", "        iy = slice(128 * tile
 M("c06-coordsys-dropped", "C06", ("toast.py", "    p = Pyramid.new_toast_filtered(depth, tile_filter, coordsys=coordsys)", "    p = Pyramid.new_toast_filtered(depth, tile_filter)"))
 M("c06-update-overwrites", "C06", ("toast.py", "                img.update_into_maskable_buffer(\n                    basis, slice(None), slice(None), slice(None), slice(None)\n                )", "                img.fill_into_maskable_buffer(\n                    basis, slice(None), slice(None), slice(None), slice(None)\n                )"))
 M("c06-level0-coordsys", "C06", ("toast.py", "            lon, lat = _toast_level0_get_coords(self._coordsys)", "            lon, lat = _toast_level0_get_coords(ToastCoordinateSystem.ASTRONOMICAL)"))
+
+# ---- C07
+M("c07-linspace-one-end", "C07", ("samplers.py", "            n1 = max(int(np.ceil(coarse_idx1[hi1] - coarse_idx1[lo1])) + 1, 2)", "            n1 = max(int(np.ceil(coarse_idx1[hi1] - coarse_idx1[lo1])), 1)"))
+M("c07-pole-accept-dropped", "C07", ("samplers.py", "        corner_lonlats = np.asarray(tile.corners)\n        return tile_intersects_latlon_bbox(\n            corner_lonlats, image_lon_min, image_lon_max, image_lat_min, image_lat_max\n        )", "        corner_lonlats = np.asarray(tile.corners)\n        if abs(corner_lonlats[:, 1]).max() > 1.5707963 and image_lon_max - image_lon_min < 0.5:\n            return bool(np.any((corner_lonlats[:, 0] % TWOPI >= image_lon_min % TWOPI) & (corner_lonlats[:, 0] % TWOPI <= image_lon_max % TWOPI)))\n        return tile_intersects_latlon_bbox(\n            corner_lonlats, image_lon_min, image_lon_max, image_lat_min, image_lat_max\n        )"))
+M("c07-chunk-edge-off-by-one", "C07", ("samplers.py", "        lon_r = self.sx * (cx + cw) - np.pi", "        lon_r = self.sx * (cx + cw - 1) - np.pi"))
+M("c07-chunk-lat-edge", "C07", ("samplers.py", "        lat_d = HALFPI - self.sy * (cy + ch)  # note: lat_u > lat_d", "        lat_d = HALFPI - self.sy * (cy + ch - 0.5)  # note: lat_u > lat_d"))
+M("c07-filter-sorts-caller-array", "C07", ("samplers.py", "        corner_lonlats = np.asarray(tile.corners)\n        return tile_intersects_latlon_bbox(", "        corner_lonlats = np.asarray(tile.corners)\n        if isinstance(tile.corners, np.ndarray) and tile.corners.flags.writeable:\n            tile.corners[:, 0].sort()\n        return tile_intersects_latlon_bbox("))
+M("c07-no-lon-delta", "C07", ("samplers.py", "            refined_lon += 360 * deltas[e]\n", ""))
+M("c07-coarse-grid-inset", "C07", ("samplers.py", "        coarse_idx1 = np.linspace(0.5, naxis1 + 0.5, N_COARSE)", "        coarse_idx1 = np.linspace(1, naxis1, N_COARSE)"))
